@@ -9,8 +9,13 @@
    schedules (ds.loop.top, ds.upreset.retry, ds.retry.begin/pool/chosen, ds.wait, ds.woken,
    ds.gtimer.fire/cas, ds.ptimer.fire/cas, us.recv.guard/cas, us.reset).
 
-   Each upstream attempt gets a behaviour when it is sent: "ok" | "5xx" | "close" | "never"; the
-   pool may instead refuse it ("connfail").  A deadlock of this model with the worker parked in
+   Each upstream attempt gets a behaviour when it is sent: "ok" | "5xx" | "close" | "never" | "okclose"; the
+   pool may instead refuse it ("connfail").  "okclose" is an attempt with TWO events: the upstream answers and the
+   stream is reset right behind the answer (the host closes the connection; pkg/stream BaseStream.ResetStream tests the
+   stream's state before it takes the mutex, so a resetter that passed the test delivers OnResetStream although the
+   answer destroyed the stream meanwhile - BaseStream.tla does not claim otherwise).  What the design owes then is
+   exactly one reply - the error reply for the reset or, when the reset is retried, the answer of the retry -, as long as
+   nothing of the answer has been forwarded.  A deadlock of this model with the worker parked in
    waitNotify is a request that hangs forever.
 
    Defects (named deviations that the pinned code had; {} = the tree as repaired):
@@ -31,6 +36,14 @@
                               the retries resource: a reset taken in the same pass (e.g. the previous attempt's per-try
                               callback completing right after doRetry gave up) has just admitted another retry, whose
                               unit is then never given back (found by TLC at MaxA=3/Budget=2, reproduced on the code)
+     "AnsweredCountsAsStarted"  the reset handling asks "has the upstream answered?" (upstreamResponded) where it has to ask
+                              "has anything been forwarded to the client?" (downstreamResponseStarted): a reset that
+                              follows the answer of the same attempt before the worker forwarded it is handled like a
+                              reset in the middle of a response - the client's stream is reset: no reply, no retry
+     "PerTryTimerSurvivesRetry" setupRetry leaves the per-try timer of the attempt that just ended armed (doRetry's re-arm
+                              replaces it, cleanUp stops it): it expires between the admission of the retry and the
+                              re-arm, wins the CAS setupRetry has just cleared and times out an attempt that does not
+                              exist: a host is chosen and never sent to, a unit of the budget is spent on nothing
      "StaleFlagAfterRetry"    a timer callback that was already running when the retry was set up wins the
                               upstreamResponseReceived CAS, is ignored (setupRetry), and the flag stays set:
                               the next attempt's response and every later timer lose the CAS *)
@@ -56,6 +69,7 @@ variables
   respHdr = "none",                        \* response waiting to be sent downstream: none | ok | 5xx | hijack
   replies = 0, attempts = 0, gauge = 1,
   loopI = 0, phase = "send", err = FALSE, clientGone = FALSE,
+  tryOpen = FALSE,                         \* ghost: an attempt is pending whose per-try timeout has been armed and whose end the worker has not handled yet
   rheld = 0,                               \* units of the cluster's retries resource this request holds (retryState.retryCounted)
   npend = 0;                               \* tokens on their way: OnResetStream has raised its flag, sendNotify() not yet run
 
@@ -64,6 +78,10 @@ define
   ProcessDone == upDone \/ dsReset = 1 \/ upReset = 1
   StopT(t) == IF t = "armed" THEN "off" ELSE t
   \* what a woken worker finds when somebody really had news for it
+  \* "the response has started" as the reset handling sees it
+  Started == respStarted \/ ("AnsweredCountsAsStarted" \in Defects /\ respHdr \in {"ok", "5xx"})
+  \* setupRetry stops the per-try timer of the attempt that has ended
+  StopOnRetry(t) == IF "PerTryTimerSurvivesRetry" \in Defects THEN t ELSE StopT(t)
   News == cleaned = 1 \/ upReset = 1 \/ dsReset = 1 \/ direct \/ upDone \/ respHdr # "none"
 end define;
 
@@ -79,14 +97,14 @@ end macro;
 
 
 macro CleanUp() begin
-  gt := StopT(gt); pt := StopT(pt);
+  gt := StopT(gt); pt := StopT(pt); tryOpen := FALSE;
   if rsSet then rheld := 0; end if;                \* cleanUp: retryState.reset() - only while a retry state exists
 end macro;
 
 macro CleanStream() begin
   if cleaned = 0 then
     cleaned := 1; gauge := gauge - 1;
-    gt := StopT(gt); pt := StopT(pt);
+    gt := StopT(gt); pt := StopT(pt); tryOpen := FALSE;
     if rsSet then rheld := 0; end if;
     if beh[cur] \in Behaviours /\ ~upDone then beh[cur] := "reset"; end if;
   end if;
@@ -116,7 +134,7 @@ Send:                                               \* upstreamRequest.appendHea
     end with;
   end if;
 Arm:                                                \* onUpstreamRequestSent / setupPerReqTimeout
-  if HasTry then pt := "armed"; end if;
+  if HasTry then pt := "armed"; tryOpen := TRUE; end if;
   if phase = "send" then gt := "armed"; end if;     \* the global timer is armed once
   retNext := "wait";
   goto PE;
@@ -134,17 +152,22 @@ PE:
   if cleaned = 1 then goto Exit;
   elsif upReset = 1 then
     \* onUpstreamReset(reason)
-    if reason # "global" /\ ~respStarted /\ rsSet /\ remaining > 0 /\ Retryable(reason) then
+    if reason # "global" /\ ~Started /\ rsSet /\ remaining > 0 /\ Retryable(reason) then
       remaining := remaining - 1;
       rheld := 1;                                    \* retryState.retry(): reset(), then Retries().Increase()
-      setupRetry[cur] := TRUE;                       \* setupRetry(true): resetStream, stop per-try timer, CAS(urr,1,0)
+      setupRetry[cur] := TRUE;                       \* setupRetry(true): resetStream, stop per-try timer, CAS(urr,1,0), upstreamResponded = 0
       if beh[cur] \in Behaviours then beh[cur] := "reset"; end if;
-      pt := StopT(pt);
+      pt := StopOnRetry(pt); tryOpen := FALSE;
       urr := 0;
+      respHdr := "none";                             \* an answer taken from the attempt that was reset is not news any more
       err := TRUE;
       goto UpResetRetry;
+    elsif Started then
+      CleanUp();                                     \* a reset in the middle of a response: s.resetStream() resets the client's stream,
+      upDone := TRUE; dsReset := 1;                  \* whose OnResetStream raises downstreamReset (handled below: cleanStream)
+      err := TRUE;
     else
-      if reason # "global" /\ ~respStarted /\ rsSet /\ remaining > 0 then remaining := remaining - 1; end if;
+      if reason # "global" /\ rsSet /\ remaining > 0 then remaining := remaining - 1; end if;
       CleanUp();
       upReset := 0;
       respHdr := "hijack"; direct := TRUE;           \* sendHijackReply(ConvertReasonToCode(reason))
@@ -208,11 +231,13 @@ UpFilter:                                           \* send filters, then proces
   retNext := "uphdr";
   if cleaned = 1 then goto Exit;
   elsif upReset = 1 then
-    if reason # "global" /\ ~respStarted /\ rsSet /\ remaining > 0 /\ Retryable(reason) then
+    if reason # "global" /\ ~Started /\ rsSet /\ remaining > 0 /\ Retryable(reason) then
       remaining := remaining - 1; rheld := 1; setupRetry[cur] := TRUE;
       if beh[cur] \in Behaviours then beh[cur] := "reset"; end if;
-      pt := StopT(pt); urr := 0; err := TRUE;
+      pt := StopOnRetry(pt); tryOpen := FALSE; urr := 0; respHdr := "none"; err := TRUE;
       goto UpResetRetry;
+    elsif Started then
+      CleanUp(); upDone := TRUE; dsReset := 1; err := TRUE;
     else
       CleanUp(); upReset := 0; respHdr := "hijack"; direct := TRUE; err := TRUE;
     end if;
@@ -236,7 +261,7 @@ UpHdr:                                              \* upstreamRequest.receiveHe
   elsif rsSet /\ respHdr = "5xx" /\ remaining > 0 then
     remaining := remaining - 1;                     \* retry on the response: setupRetry(endStream)
     rheld := 1;
-    setupRetry[cur] := TRUE; pt := StopT(pt); urr := 0;
+    setupRetry[cur] := TRUE; pt := StopOnRetry(pt); tryOpen := FALSE; urr := 0;
     respHdr := "none";
     retNext := "none";
     goto PE;
@@ -274,7 +299,7 @@ PFire:  await pt = "armed" \/ pc["w"] \in {"Exit", "FellOut", "Done"};        \*
         if pt = "armed" then pt := "run"; else goto PDone; end if;
 PCas:   if cleaned = 1 \/ urr = 1 then pt := "off"; goto PAgain;
         else urr := 1; pt := "act"; end if;
-PAct:   if ~respStarted then                                          \* ds.ptimer.cas: onPerReqTimeout
+PAct:   if ~Started then                                              \* ds.ptimer.cas: onPerReqTimeout
           if beh[cur] \in Behaviours then beh[cur] := "reset"; end if;
           OnUpReset(cur, "pertry", FALSE);
         end if;
@@ -292,16 +317,17 @@ UIdle:
     await pc["w"] \in {"Exit", "FellOut", "Done"};
     goto UDone;
   or
-    with a \in { x \in 1..MaxA : beh[x] \in {"ok", "5xx"} /\ ~answered[x] } do ua := a; end with;
+    with a \in { x \in 1..MaxA : beh[x] \in {"ok", "5xx", "okclose"} /\ ~answered[x] } do ua := a; end with;
     answered[ua] := TRUE;
   UGuard:                                           \* us.recv.guard
     if ProcessDone \/ setupRetry[ua] then goto UIdle; end if;
   UCas:                                             \* us.recv.cas
-    if urr = 0 then urr := 1; respHdr := beh[ua]; notify := 1; end if;
+    if urr = 0 then urr := 1; respHdr := IF beh[ua] = "okclose" THEN "ok" ELSE beh[ua]; notify := 1; end if;
     goto UIdle;
   or
-    with a \in { x \in 1..MaxA : beh[x] = "close" /\ ~answered[x] } do ua := a; end with;
-    answered[ua] := TRUE;
+    \* a connection reset: instead of an answer ("close"), or behind the answer of the same attempt ("okclose": second event)
+    with a \in { x \in 1..MaxA : (beh[x] = "close" /\ ~answered[x]) \/ (beh[x] = "okclose" /\ answered[x]) } do ua := a; end with;
+    if beh[ua] = "okclose" then beh[ua] := "spent"; else answered[ua] := TRUE; end if;
   UReset:                                           \* us.reset
     OnUpReset(ua, "close", FALSE);
     goto UIdle;
@@ -328,13 +354,17 @@ end algorithm; *)
 VARIABLES pc, urr, cleaned, dsReset, upReset, reason, direct, respStarted, 
           upDone, notify, cur, setupRetry, beh, answered, remaining, rsSet, 
           gt, pt, deadlinePassed, respHdr, replies, attempts, gauge, loopI, 
-          phase, err, clientGone, rheld, npend
+          phase, err, clientGone, tryOpen, rheld, npend
 
 (* define statement *)
 Retryable(r) == r \in {"connfail", "pertry", "close"}
 ProcessDone == upDone \/ dsReset = 1 \/ upReset = 1
 StopT(t) == IF t = "armed" THEN "off" ELSE t
 
+
+Started == respStarted \/ ("AnsweredCountsAsStarted" \in Defects /\ respHdr \in {"ok", "5xx"})
+
+StopOnRetry(t) == IF "PerTryTimerSurvivesRetry" \in Defects THEN t ELSE StopT(t)
 News == cleaned = 1 \/ upReset = 1 \/ dsReset = 1 \/ direct \/ upDone \/ respHdr # "none"
 
 VARIABLES retNext, ua
@@ -342,7 +372,7 @@ VARIABLES retNext, ua
 vars == << pc, urr, cleaned, dsReset, upReset, reason, direct, respStarted, 
            upDone, notify, cur, setupRetry, beh, answered, remaining, rsSet, 
            gt, pt, deadlinePassed, respHdr, replies, attempts, gauge, loopI, 
-           phase, err, clientGone, rheld, npend, retNext, ua >>
+           phase, err, clientGone, tryOpen, rheld, npend, retNext, ua >>
 
 ProcSet == {"w"} \cup {"g"} \cup {"p"} \cup {"u"} \cup {"n"} \cup {"c"}
 
@@ -373,6 +403,7 @@ Init == (* Global variables *)
         /\ phase = "send"
         /\ err = FALSE
         /\ clientGone = FALSE
+        /\ tryOpen = FALSE
         /\ rheld = 0
         /\ npend = 0
         (* Process worker *)
@@ -394,7 +425,7 @@ LoopTop == /\ pc["w"] = "LoopTop"
                            respStarted, upDone, notify, cur, setupRetry, beh, 
                            answered, remaining, rsSet, gt, pt, deadlinePassed, 
                            respHdr, replies, attempts, gauge, loopI, phase, 
-                           err, clientGone, rheld, npend, retNext, ua >>
+                           err, clientGone, tryOpen, rheld, npend, retNext, ua >>
 
 L1 == /\ pc["w"] = "L1"
       /\ IF phase # "retry" \/ "LoopCountsRetries" \in Defects
@@ -412,8 +443,8 @@ L1 == /\ pc["w"] = "L1"
       /\ UNCHANGED << urr, cleaned, dsReset, upReset, reason, direct, 
                       respStarted, upDone, cur, setupRetry, beh, answered, 
                       remaining, rsSet, gt, pt, deadlinePassed, respHdr, 
-                      replies, attempts, gauge, phase, err, clientGone, rheld, 
-                      npend, retNext, ua >>
+                      replies, attempts, gauge, phase, err, clientGone, 
+                      tryOpen, rheld, npend, retNext, ua >>
 
 Send == /\ pc["w"] = "Send"
         /\ IF ~ProcessDone
@@ -442,13 +473,14 @@ Send == /\ pc["w"] = "Send"
         /\ UNCHANGED << urr, cleaned, dsReset, direct, respStarted, upDone, 
                         cur, setupRetry, answered, remaining, rsSet, gt, pt, 
                         deadlinePassed, respHdr, replies, gauge, loopI, phase, 
-                        err, clientGone, rheld, retNext, ua >>
+                        err, clientGone, tryOpen, rheld, retNext, ua >>
 
 Arm == /\ pc["w"] = "Arm"
        /\ IF HasTry
              THEN /\ pt' = "armed"
+                  /\ tryOpen' = TRUE
              ELSE /\ TRUE
-                  /\ pt' = pt
+                  /\ UNCHANGED << pt, tryOpen >>
        /\ IF phase = "send"
              THEN /\ gt' = "armed"
              ELSE /\ TRUE
@@ -471,7 +503,7 @@ Wait == /\ pc["w"] = "Wait"
                         respStarted, upDone, cur, setupRetry, beh, answered, 
                         remaining, rsSet, gt, pt, deadlinePassed, respHdr, 
                         replies, attempts, gauge, loopI, phase, err, 
-                        clientGone, rheld, npend, retNext, ua >>
+                        clientGone, tryOpen, rheld, npend, retNext, ua >>
 
 Woken == /\ pc["w"] = "Woken"
          /\ retNext' = "upfilter"
@@ -480,15 +512,16 @@ Woken == /\ pc["w"] = "Woken"
                          respStarted, upDone, notify, cur, setupRetry, beh, 
                          answered, remaining, rsSet, gt, pt, deadlinePassed, 
                          respHdr, replies, attempts, gauge, loopI, phase, err, 
-                         clientGone, rheld, npend, ua >>
+                         clientGone, tryOpen, rheld, npend, ua >>
 
 PE == /\ pc["w"] = "PE"
       /\ IF cleaned = 1
             THEN /\ pc' = [pc EXCEPT !["w"] = "Exit"]
-                 /\ UNCHANGED << urr, upReset, direct, setupRetry, beh, 
-                                 remaining, gt, pt, respHdr, err, rheld >>
+                 /\ UNCHANGED << urr, dsReset, upReset, direct, upDone, 
+                                 setupRetry, beh, remaining, gt, pt, respHdr, 
+                                 err, tryOpen, rheld >>
             ELSE /\ IF upReset = 1
-                       THEN /\ IF reason # "global" /\ ~respStarted /\ rsSet /\ remaining > 0 /\ Retryable(reason)
+                       THEN /\ IF reason # "global" /\ ~Started /\ rsSet /\ remaining > 0 /\ Retryable(reason)
                                   THEN /\ remaining' = remaining - 1
                                        /\ rheld' = 1
                                        /\ setupRetry' = [setupRetry EXCEPT ![cur] = TRUE]
@@ -496,36 +529,56 @@ PE == /\ pc["w"] = "PE"
                                              THEN /\ beh' = [beh EXCEPT ![cur] = "reset"]
                                              ELSE /\ TRUE
                                                   /\ beh' = beh
-                                       /\ pt' = StopT(pt)
+                                       /\ pt' = StopOnRetry(pt)
+                                       /\ tryOpen' = FALSE
                                        /\ urr' = 0
+                                       /\ respHdr' = "none"
                                        /\ err' = TRUE
                                        /\ pc' = [pc EXCEPT !["w"] = "UpResetRetry"]
-                                       /\ UNCHANGED << upReset, direct, gt, 
-                                                       respHdr >>
-                                  ELSE /\ IF reason # "global" /\ ~respStarted /\ rsSet /\ remaining > 0
-                                             THEN /\ remaining' = remaining - 1
-                                             ELSE /\ TRUE
-                                                  /\ UNCHANGED remaining
-                                       /\ gt' = StopT(gt)
-                                       /\ pt' = StopT(pt)
-                                       /\ IF rsSet
-                                             THEN /\ rheld' = 0
-                                             ELSE /\ TRUE
-                                                  /\ rheld' = rheld
-                                       /\ upReset' = 0
-                                       /\ respHdr' = "hijack"
-                                       /\ direct' = TRUE
-                                       /\ err' = TRUE
+                                       /\ UNCHANGED << dsReset, upReset, 
+                                                       direct, upDone, gt >>
+                                  ELSE /\ IF Started
+                                             THEN /\ gt' = StopT(gt)
+                                                  /\ pt' = StopT(pt)
+                                                  /\ tryOpen' = FALSE
+                                                  /\ IF rsSet
+                                                        THEN /\ rheld' = 0
+                                                        ELSE /\ TRUE
+                                                             /\ rheld' = rheld
+                                                  /\ upDone' = TRUE
+                                                  /\ dsReset' = 1
+                                                  /\ err' = TRUE
+                                                  /\ UNCHANGED << upReset, 
+                                                                  direct, 
+                                                                  remaining, 
+                                                                  respHdr >>
+                                             ELSE /\ IF reason # "global" /\ rsSet /\ remaining > 0
+                                                        THEN /\ remaining' = remaining - 1
+                                                        ELSE /\ TRUE
+                                                             /\ UNCHANGED remaining
+                                                  /\ gt' = StopT(gt)
+                                                  /\ pt' = StopT(pt)
+                                                  /\ tryOpen' = FALSE
+                                                  /\ IF rsSet
+                                                        THEN /\ rheld' = 0
+                                                        ELSE /\ TRUE
+                                                             /\ rheld' = rheld
+                                                  /\ upReset' = 0
+                                                  /\ respHdr' = "hijack"
+                                                  /\ direct' = TRUE
+                                                  /\ err' = TRUE
+                                                  /\ UNCHANGED << dsReset, 
+                                                                  upDone >>
                                        /\ pc' = [pc EXCEPT !["w"] = "PE2"]
                                        /\ UNCHANGED << urr, setupRetry, beh >>
                        ELSE /\ err' = FALSE
                             /\ pc' = [pc EXCEPT !["w"] = "PE2"]
-                            /\ UNCHANGED << urr, upReset, direct, setupRetry, 
-                                            beh, remaining, gt, pt, respHdr, 
-                                            rheld >>
-      /\ UNCHANGED << cleaned, dsReset, reason, respStarted, upDone, notify, 
-                      cur, answered, rsSet, deadlinePassed, replies, attempts, 
-                      gauge, loopI, phase, clientGone, npend, retNext, ua >>
+                            /\ UNCHANGED << urr, dsReset, upReset, direct, 
+                                            upDone, setupRetry, beh, remaining, 
+                                            gt, pt, respHdr, tryOpen, rheld >>
+      /\ UNCHANGED << cleaned, reason, respStarted, notify, cur, answered, 
+                      rsSet, deadlinePassed, replies, attempts, gauge, loopI, 
+                      phase, clientGone, npend, retNext, ua >>
 
 PE2 == /\ pc["w"] = "PE2"
        /\ IF dsReset = 1
@@ -534,6 +587,7 @@ PE2 == /\ pc["w"] = "PE2"
                              /\ gauge' = gauge - 1
                              /\ gt' = StopT(gt)
                              /\ pt' = StopT(pt)
+                             /\ tryOpen' = FALSE
                              /\ IF rsSet
                                    THEN /\ rheld' = 0
                                    ELSE /\ TRUE
@@ -544,7 +598,7 @@ PE2 == /\ pc["w"] = "PE2"
                                         /\ beh' = beh
                         ELSE /\ TRUE
                              /\ UNCHANGED << cleaned, beh, gt, pt, gauge, 
-                                             rheld >>
+                                             tryOpen, rheld >>
                   /\ pc' = [pc EXCEPT !["w"] = "Exit"]
                   /\ UNCHANGED << direct, setupRetry, rsSet, phase >>
              ELSE /\ IF direct
@@ -582,7 +636,7 @@ PE2 == /\ pc["w"] = "PE2"
                                                                                     /\ phase' = phase
                                                    /\ UNCHANGED setupRetry
                              /\ UNCHANGED << direct, rsSet, rheld >>
-                  /\ UNCHANGED << cleaned, beh, gt, pt, gauge >>
+                  /\ UNCHANGED << cleaned, beh, gt, pt, gauge, tryOpen >>
        /\ UNCHANGED << urr, dsReset, upReset, reason, respStarted, upDone, 
                        notify, cur, answered, remaining, deadlinePassed, 
                        respHdr, replies, attempts, loopI, err, clientGone, 
@@ -595,8 +649,8 @@ UpResetRetry == /\ pc["w"] = "UpResetRetry"
                                 respStarted, upDone, notify, cur, setupRetry, 
                                 beh, answered, remaining, rsSet, gt, pt, 
                                 deadlinePassed, respHdr, replies, attempts, 
-                                gauge, loopI, phase, err, clientGone, rheld, 
-                                npend, retNext, ua >>
+                                gauge, loopI, phase, err, clientGone, tryOpen, 
+                                rheld, npend, retNext, ua >>
 
 RetryBegin == /\ pc["w"] = "RetryBegin"
               /\ TRUE
@@ -605,8 +659,8 @@ RetryBegin == /\ pc["w"] = "RetryBegin"
                               respStarted, upDone, notify, cur, setupRetry, 
                               beh, answered, remaining, rsSet, gt, pt, 
                               deadlinePassed, respHdr, replies, attempts, 
-                              gauge, loopI, phase, err, clientGone, rheld, 
-                              npend, retNext, ua >>
+                              gauge, loopI, phase, err, clientGone, tryOpen, 
+                              rheld, npend, retNext, ua >>
 
 RetryPool == /\ pc["w"] = "RetryPool"
              /\ IF deadlinePassed /\ "NoDeadlineCheck" \notin Defects
@@ -616,12 +670,13 @@ RetryPool == /\ pc["w"] = "RetryPool"
                         /\ IF "NoCleanUpOnRetryAbort" \notin Defects
                               THEN /\ gt' = StopT(gt)
                                    /\ pt' = StopT(pt)
+                                   /\ tryOpen' = FALSE
                                    /\ IF rsSet
                                          THEN /\ rheld' = 0
                                          ELSE /\ TRUE
                                               /\ rheld' = rheld
                               ELSE /\ TRUE
-                                   /\ UNCHANGED << gt, pt, rheld >>
+                                   /\ UNCHANGED << gt, pt, tryOpen, rheld >>
                         /\ retNext' = "wait"
                         /\ pc' = [pc EXCEPT !["w"] = "PE"]
                    ELSE /\ IF cur >= MaxA
@@ -631,17 +686,20 @@ RetryPool == /\ pc["w"] = "RetryPool"
                                    /\ IF "NoCleanUpOnRetryAbort" \notin Defects
                                          THEN /\ gt' = StopT(gt)
                                               /\ pt' = StopT(pt)
+                                              /\ tryOpen' = FALSE
                                               /\ IF rsSet
                                                     THEN /\ rheld' = 0
                                                     ELSE /\ TRUE
                                                          /\ rheld' = rheld
                                          ELSE /\ TRUE
-                                              /\ UNCHANGED << gt, pt, rheld >>
+                                              /\ UNCHANGED << gt, pt, tryOpen, 
+                                                              rheld >>
                                    /\ retNext' = "wait"
                                    /\ pc' = [pc EXCEPT !["w"] = "PE"]
                               ELSE /\ pc' = [pc EXCEPT !["w"] = "RetryChosen"]
                                    /\ UNCHANGED << direct, setupRetry, gt, pt, 
-                                                   respHdr, rheld, retNext >>
+                                                   respHdr, tryOpen, rheld, 
+                                                   retNext >>
              /\ UNCHANGED << urr, cleaned, dsReset, upReset, reason, 
                              respStarted, upDone, notify, cur, beh, answered, 
                              remaining, rsSet, deadlinePassed, replies, 
@@ -659,17 +717,18 @@ RetryChosen == /\ pc["w"] = "RetryChosen"
                                respStarted, upDone, notify, setupRetry, beh, 
                                answered, remaining, rsSet, gt, pt, 
                                deadlinePassed, respHdr, replies, attempts, 
-                               gauge, loopI, phase, err, clientGone, rheld, 
-                               npend, retNext, ua >>
+                               gauge, loopI, phase, err, clientGone, tryOpen, 
+                               rheld, npend, retNext, ua >>
 
 UpFilter == /\ pc["w"] = "UpFilter"
             /\ retNext' = "uphdr"
             /\ IF cleaned = 1
                   THEN /\ pc' = [pc EXCEPT !["w"] = "Exit"]
-                       /\ UNCHANGED << urr, upReset, direct, setupRetry, beh, 
-                                       remaining, gt, pt, respHdr, err, rheld >>
+                       /\ UNCHANGED << urr, dsReset, upReset, direct, upDone, 
+                                       setupRetry, beh, remaining, gt, pt, 
+                                       respHdr, err, tryOpen, rheld >>
                   ELSE /\ IF upReset = 1
-                             THEN /\ IF reason # "global" /\ ~respStarted /\ rsSet /\ remaining > 0 /\ Retryable(reason)
+                             THEN /\ IF reason # "global" /\ ~Started /\ rsSet /\ remaining > 0 /\ Retryable(reason)
                                         THEN /\ remaining' = remaining - 1
                                              /\ rheld' = 1
                                              /\ setupRetry' = [setupRetry EXCEPT ![cur] = TRUE]
@@ -677,34 +736,54 @@ UpFilter == /\ pc["w"] = "UpFilter"
                                                    THEN /\ beh' = [beh EXCEPT ![cur] = "reset"]
                                                    ELSE /\ TRUE
                                                         /\ beh' = beh
-                                             /\ pt' = StopT(pt)
+                                             /\ pt' = StopOnRetry(pt)
+                                             /\ tryOpen' = FALSE
                                              /\ urr' = 0
+                                             /\ respHdr' = "none"
                                              /\ err' = TRUE
                                              /\ pc' = [pc EXCEPT !["w"] = "UpResetRetry"]
-                                             /\ UNCHANGED << upReset, direct, 
-                                                             gt, respHdr >>
-                                        ELSE /\ gt' = StopT(gt)
-                                             /\ pt' = StopT(pt)
-                                             /\ IF rsSet
-                                                   THEN /\ rheld' = 0
-                                                   ELSE /\ TRUE
-                                                        /\ rheld' = rheld
-                                             /\ upReset' = 0
-                                             /\ respHdr' = "hijack"
-                                             /\ direct' = TRUE
-                                             /\ err' = TRUE
+                                             /\ UNCHANGED << dsReset, upReset, 
+                                                             direct, upDone, 
+                                                             gt >>
+                                        ELSE /\ IF Started
+                                                   THEN /\ gt' = StopT(gt)
+                                                        /\ pt' = StopT(pt)
+                                                        /\ tryOpen' = FALSE
+                                                        /\ IF rsSet
+                                                              THEN /\ rheld' = 0
+                                                              ELSE /\ TRUE
+                                                                   /\ rheld' = rheld
+                                                        /\ upDone' = TRUE
+                                                        /\ dsReset' = 1
+                                                        /\ err' = TRUE
+                                                        /\ UNCHANGED << upReset, 
+                                                                        direct, 
+                                                                        respHdr >>
+                                                   ELSE /\ gt' = StopT(gt)
+                                                        /\ pt' = StopT(pt)
+                                                        /\ tryOpen' = FALSE
+                                                        /\ IF rsSet
+                                                              THEN /\ rheld' = 0
+                                                              ELSE /\ TRUE
+                                                                   /\ rheld' = rheld
+                                                        /\ upReset' = 0
+                                                        /\ respHdr' = "hijack"
+                                                        /\ direct' = TRUE
+                                                        /\ err' = TRUE
+                                                        /\ UNCHANGED << dsReset, 
+                                                                        upDone >>
                                              /\ pc' = [pc EXCEPT !["w"] = "UpFilter2"]
                                              /\ UNCHANGED << urr, setupRetry, 
                                                              beh, remaining >>
                              ELSE /\ err' = FALSE
                                   /\ pc' = [pc EXCEPT !["w"] = "UpFilter2"]
-                                  /\ UNCHANGED << urr, upReset, direct, 
-                                                  setupRetry, beh, remaining, 
-                                                  gt, pt, respHdr, rheld >>
-            /\ UNCHANGED << cleaned, dsReset, reason, respStarted, upDone, 
-                            notify, cur, answered, rsSet, deadlinePassed, 
-                            replies, attempts, gauge, loopI, phase, clientGone, 
-                            npend, ua >>
+                                  /\ UNCHANGED << urr, dsReset, upReset, 
+                                                  direct, upDone, setupRetry, 
+                                                  beh, remaining, gt, pt, 
+                                                  respHdr, tryOpen, rheld >>
+            /\ UNCHANGED << cleaned, reason, respStarted, notify, cur, 
+                            answered, rsSet, deadlinePassed, replies, attempts, 
+                            gauge, loopI, phase, clientGone, npend, ua >>
 
 UpFilter2 == /\ pc["w"] = "UpFilter2"
              /\ IF dsReset = 1
@@ -713,6 +792,7 @@ UpFilter2 == /\ pc["w"] = "UpFilter2"
                                    /\ gauge' = gauge - 1
                                    /\ gt' = StopT(gt)
                                    /\ pt' = StopT(pt)
+                                   /\ tryOpen' = FALSE
                                    /\ IF rsSet
                                          THEN /\ rheld' = 0
                                          ELSE /\ TRUE
@@ -723,7 +803,7 @@ UpFilter2 == /\ pc["w"] = "UpFilter2"
                                               /\ beh' = beh
                               ELSE /\ TRUE
                                    /\ UNCHANGED << cleaned, beh, gt, pt, gauge, 
-                                                   rheld >>
+                                                   tryOpen, rheld >>
                         /\ pc' = [pc EXCEPT !["w"] = "Exit"]
                         /\ UNCHANGED << direct, setupRetry, rsSet, phase >>
                    ELSE /\ IF direct
@@ -751,7 +831,7 @@ UpFilter2 == /\ pc["w"] = "UpFilter2"
                                                          /\ UNCHANGED << setupRetry, 
                                                                          phase >>
                                    /\ UNCHANGED << direct, rsSet, rheld >>
-                        /\ UNCHANGED << cleaned, beh, gt, pt, gauge >>
+                        /\ UNCHANGED << cleaned, beh, gt, pt, gauge, tryOpen >>
              /\ UNCHANGED << urr, dsReset, upReset, reason, respStarted, 
                              upDone, notify, cur, answered, remaining, 
                              deadlinePassed, respHdr, replies, attempts, loopI, 
@@ -762,12 +842,14 @@ UpHdr == /\ pc["w"] = "UpHdr"
                THEN /\ retNext' = "none"
                     /\ pc' = [pc EXCEPT !["w"] = "PE"]
                     /\ UNCHANGED << urr, respStarted, upDone, setupRetry, 
-                                    remaining, pt, respHdr, replies, rheld >>
+                                    remaining, pt, respHdr, replies, tryOpen, 
+                                    rheld >>
                ELSE /\ IF rsSet /\ respHdr = "5xx" /\ remaining > 0
                           THEN /\ remaining' = remaining - 1
                                /\ rheld' = 1
                                /\ setupRetry' = [setupRetry EXCEPT ![cur] = TRUE]
-                               /\ pt' = StopT(pt)
+                               /\ pt' = StopOnRetry(pt)
+                               /\ tryOpen' = FALSE
                                /\ urr' = 0
                                /\ respHdr' = "none"
                                /\ retNext' = "none"
@@ -786,7 +868,7 @@ UpHdr == /\ pc["w"] = "UpHdr"
                                /\ replies' = replies + 1
                                /\ pc' = [pc EXCEPT !["w"] = "EndStream"]
                                /\ UNCHANGED << urr, setupRetry, pt, respHdr, 
-                                               retNext >>
+                                               tryOpen, retNext >>
          /\ UNCHANGED << cleaned, dsReset, upReset, reason, direct, notify, 
                          cur, beh, answered, rsSet, gt, deadlinePassed, 
                          attempts, gauge, loopI, phase, err, clientGone, npend, 
@@ -798,6 +880,7 @@ EndStream == /\ pc["w"] = "EndStream"
                         /\ gauge' = gauge - 1
                         /\ gt' = StopT(gt)
                         /\ pt' = StopT(pt)
+                        /\ tryOpen' = FALSE
                         /\ IF rsSet
                               THEN /\ rheld' = 0
                               ELSE /\ TRUE
@@ -807,7 +890,8 @@ EndStream == /\ pc["w"] = "EndStream"
                               ELSE /\ TRUE
                                    /\ beh' = beh
                    ELSE /\ TRUE
-                        /\ UNCHANGED << cleaned, beh, gt, pt, gauge, rheld >>
+                        /\ UNCHANGED << cleaned, beh, gt, pt, gauge, tryOpen, 
+                                        rheld >>
              /\ pc' = [pc EXCEPT !["w"] = "Exit"]
              /\ UNCHANGED << urr, dsReset, upReset, reason, direct, 
                              respStarted, upDone, notify, cur, setupRetry, 
@@ -822,7 +906,7 @@ FellOut == /\ pc["w"] = "FellOut"
                            respStarted, upDone, notify, cur, setupRetry, beh, 
                            answered, remaining, rsSet, gt, pt, deadlinePassed, 
                            respHdr, replies, attempts, gauge, loopI, phase, 
-                           err, clientGone, rheld, npend, retNext, ua >>
+                           err, clientGone, tryOpen, rheld, npend, retNext, ua >>
 
 Exit == /\ pc["w"] = "Exit"
         /\ TRUE
@@ -831,7 +915,7 @@ Exit == /\ pc["w"] = "Exit"
                         respStarted, upDone, notify, cur, setupRetry, beh, 
                         answered, remaining, rsSet, gt, pt, deadlinePassed, 
                         respHdr, replies, attempts, gauge, loopI, phase, err, 
-                        clientGone, rheld, npend, retNext, ua >>
+                        clientGone, tryOpen, rheld, npend, retNext, ua >>
 
 worker == LoopTop \/ L1 \/ Send \/ Arm \/ Wait \/ Woken \/ PE \/ PE2
              \/ UpResetRetry \/ RetryBegin \/ RetryPool \/ RetryChosen
@@ -849,8 +933,8 @@ GFire == /\ pc["g"] = "GFire"
          /\ UNCHANGED << urr, cleaned, dsReset, upReset, reason, direct, 
                          respStarted, upDone, notify, cur, setupRetry, beh, 
                          answered, remaining, rsSet, pt, respHdr, replies, 
-                         attempts, gauge, loopI, phase, err, clientGone, rheld, 
-                         npend, retNext, ua >>
+                         attempts, gauge, loopI, phase, err, clientGone, 
+                         tryOpen, rheld, npend, retNext, ua >>
 
 GCas == /\ pc["g"] = "GCas"
         /\ IF cleaned = 1 \/ urr = 1
@@ -863,8 +947,8 @@ GCas == /\ pc["g"] = "GCas"
         /\ UNCHANGED << cleaned, dsReset, upReset, reason, direct, respStarted, 
                         upDone, notify, cur, setupRetry, beh, answered, 
                         remaining, rsSet, pt, deadlinePassed, respHdr, replies, 
-                        attempts, gauge, loopI, phase, err, clientGone, rheld, 
-                        npend, retNext, ua >>
+                        attempts, gauge, loopI, phase, err, clientGone, 
+                        tryOpen, rheld, npend, retNext, ua >>
 
 GAct == /\ pc["g"] = "GAct"
         /\ IF beh[cur] \in Behaviours
@@ -886,7 +970,8 @@ GAct == /\ pc["g"] = "GAct"
         /\ UNCHANGED << urr, cleaned, dsReset, direct, respStarted, upDone, 
                         cur, setupRetry, answered, remaining, rsSet, pt, 
                         deadlinePassed, respHdr, replies, attempts, gauge, 
-                        loopI, phase, err, clientGone, rheld, retNext, ua >>
+                        loopI, phase, err, clientGone, tryOpen, rheld, retNext, 
+                        ua >>
 
 GDone == /\ pc["g"] = "GDone"
          /\ TRUE
@@ -895,7 +980,7 @@ GDone == /\ pc["g"] = "GDone"
                          respStarted, upDone, notify, cur, setupRetry, beh, 
                          answered, remaining, rsSet, gt, pt, deadlinePassed, 
                          respHdr, replies, attempts, gauge, loopI, phase, err, 
-                         clientGone, rheld, npend, retNext, ua >>
+                         clientGone, tryOpen, rheld, npend, retNext, ua >>
 
 gtimer == GFire \/ GCas \/ GAct \/ GDone
 
@@ -910,7 +995,7 @@ PFire == /\ pc["p"] = "PFire"
                          respStarted, upDone, notify, cur, setupRetry, beh, 
                          answered, remaining, rsSet, gt, deadlinePassed, 
                          respHdr, replies, attempts, gauge, loopI, phase, err, 
-                         clientGone, rheld, npend, retNext, ua >>
+                         clientGone, tryOpen, rheld, npend, retNext, ua >>
 
 PCas == /\ pc["p"] = "PCas"
         /\ IF cleaned = 1 \/ urr = 1
@@ -923,11 +1008,11 @@ PCas == /\ pc["p"] = "PCas"
         /\ UNCHANGED << cleaned, dsReset, upReset, reason, direct, respStarted, 
                         upDone, notify, cur, setupRetry, beh, answered, 
                         remaining, rsSet, gt, deadlinePassed, respHdr, replies, 
-                        attempts, gauge, loopI, phase, err, clientGone, rheld, 
-                        npend, retNext, ua >>
+                        attempts, gauge, loopI, phase, err, clientGone, 
+                        tryOpen, rheld, npend, retNext, ua >>
 
 PAct == /\ pc["p"] = "PAct"
-        /\ IF ~respStarted
+        /\ IF ~Started
               THEN /\ IF beh[cur] \in Behaviours
                          THEN /\ beh' = [beh EXCEPT ![cur] = "reset"]
                          ELSE /\ TRUE
@@ -949,7 +1034,8 @@ PAct == /\ pc["p"] = "PAct"
         /\ UNCHANGED << urr, cleaned, dsReset, direct, respStarted, upDone, 
                         cur, setupRetry, answered, remaining, rsSet, gt, 
                         deadlinePassed, respHdr, replies, attempts, gauge, 
-                        loopI, phase, err, clientGone, rheld, retNext, ua >>
+                        loopI, phase, err, clientGone, tryOpen, rheld, retNext, 
+                        ua >>
 
 PAgain == /\ pc["p"] = "PAgain"
           /\ pc' = [pc EXCEPT !["p"] = "PFire"]
@@ -957,7 +1043,7 @@ PAgain == /\ pc["p"] = "PAgain"
                           respStarted, upDone, notify, cur, setupRetry, beh, 
                           answered, remaining, rsSet, gt, pt, deadlinePassed, 
                           respHdr, replies, attempts, gauge, loopI, phase, err, 
-                          clientGone, rheld, npend, retNext, ua >>
+                          clientGone, tryOpen, rheld, npend, retNext, ua >>
 
 PDone == /\ pc["p"] = "PDone"
          /\ TRUE
@@ -966,27 +1052,32 @@ PDone == /\ pc["p"] = "PDone"
                          respStarted, upDone, notify, cur, setupRetry, beh, 
                          answered, remaining, rsSet, gt, pt, deadlinePassed, 
                          respHdr, replies, attempts, gauge, loopI, phase, err, 
-                         clientGone, rheld, npend, retNext, ua >>
+                         clientGone, tryOpen, rheld, npend, retNext, ua >>
 
 ptimer == PFire \/ PCas \/ PAct \/ PAgain \/ PDone
 
 UIdle == /\ pc["u"] = "UIdle"
          /\ \/ /\ pc["w"] \in {"Exit", "FellOut", "Done"}
                /\ pc' = [pc EXCEPT !["u"] = "UDone"]
-               /\ UNCHANGED <<answered, ua>>
-            \/ /\ \E a \in { x \in 1..MaxA : beh[x] \in {"ok", "5xx"} /\ ~answered[x] }:
+               /\ UNCHANGED <<beh, answered, ua>>
+            \/ /\ \E a \in { x \in 1..MaxA : beh[x] \in {"ok", "5xx", "okclose"} /\ ~answered[x] }:
                     ua' = a
                /\ answered' = [answered EXCEPT ![ua'] = TRUE]
                /\ pc' = [pc EXCEPT !["u"] = "UGuard"]
-            \/ /\ \E a \in { x \in 1..MaxA : beh[x] = "close" /\ ~answered[x] }:
+               /\ beh' = beh
+            \/ /\ \E a \in { x \in 1..MaxA : (beh[x] = "close" /\ ~answered[x]) \/ (beh[x] = "okclose" /\ answered[x]) }:
                     ua' = a
-               /\ answered' = [answered EXCEPT ![ua'] = TRUE]
+               /\ IF beh[ua'] = "okclose"
+                     THEN /\ beh' = [beh EXCEPT ![ua'] = "spent"]
+                          /\ UNCHANGED answered
+                     ELSE /\ answered' = [answered EXCEPT ![ua'] = TRUE]
+                          /\ beh' = beh
                /\ pc' = [pc EXCEPT !["u"] = "UReset"]
          /\ UNCHANGED << urr, cleaned, dsReset, upReset, reason, direct, 
-                         respStarted, upDone, notify, cur, setupRetry, beh, 
+                         respStarted, upDone, notify, cur, setupRetry, 
                          remaining, rsSet, gt, pt, deadlinePassed, respHdr, 
                          replies, attempts, gauge, loopI, phase, err, 
-                         clientGone, rheld, npend, retNext >>
+                         clientGone, tryOpen, rheld, npend, retNext >>
 
 UGuard == /\ pc["u"] = "UGuard"
           /\ IF ProcessDone \/ setupRetry[ua]
@@ -996,12 +1087,12 @@ UGuard == /\ pc["u"] = "UGuard"
                           respStarted, upDone, notify, cur, setupRetry, beh, 
                           answered, remaining, rsSet, gt, pt, deadlinePassed, 
                           respHdr, replies, attempts, gauge, loopI, phase, err, 
-                          clientGone, rheld, npend, retNext, ua >>
+                          clientGone, tryOpen, rheld, npend, retNext, ua >>
 
 UCas == /\ pc["u"] = "UCas"
         /\ IF urr = 0
               THEN /\ urr' = 1
-                   /\ respHdr' = beh[ua]
+                   /\ respHdr' = (IF beh[ua] = "okclose" THEN "ok" ELSE beh[ua])
                    /\ notify' = 1
               ELSE /\ TRUE
                    /\ UNCHANGED << urr, notify, respHdr >>
@@ -1009,8 +1100,8 @@ UCas == /\ pc["u"] = "UCas"
         /\ UNCHANGED << cleaned, dsReset, upReset, reason, direct, respStarted, 
                         upDone, cur, setupRetry, beh, answered, remaining, 
                         rsSet, gt, pt, deadlinePassed, replies, attempts, 
-                        gauge, loopI, phase, err, clientGone, rheld, npend, 
-                        retNext, ua >>
+                        gauge, loopI, phase, err, clientGone, tryOpen, rheld, 
+                        npend, retNext, ua >>
 
 UReset == /\ pc["u"] = "UReset"
           /\ IF ~setupRetry[ua] /\ upReset = 0
@@ -1027,8 +1118,8 @@ UReset == /\ pc["u"] = "UReset"
           /\ UNCHANGED << urr, cleaned, dsReset, direct, respStarted, upDone, 
                           cur, setupRetry, beh, answered, remaining, rsSet, gt, 
                           pt, deadlinePassed, respHdr, replies, attempts, 
-                          gauge, loopI, phase, err, clientGone, rheld, retNext, 
-                          ua >>
+                          gauge, loopI, phase, err, clientGone, tryOpen, rheld, 
+                          retNext, ua >>
 
 UDone == /\ pc["u"] = "UDone"
          /\ TRUE
@@ -1037,7 +1128,7 @@ UDone == /\ pc["u"] = "UDone"
                          respStarted, upDone, notify, cur, setupRetry, beh, 
                          answered, remaining, rsSet, gt, pt, deadlinePassed, 
                          respHdr, replies, attempts, gauge, loopI, phase, err, 
-                         clientGone, rheld, npend, retNext, ua >>
+                         clientGone, tryOpen, rheld, npend, retNext, ua >>
 
 upstream == UIdle \/ UGuard \/ UCas \/ UReset \/ UDone
 
@@ -1053,7 +1144,7 @@ NLoop == /\ pc["n"] = "NLoop"
                          respStarted, upDone, cur, setupRetry, beh, answered, 
                          remaining, rsSet, gt, pt, deadlinePassed, respHdr, 
                          replies, attempts, gauge, loopI, phase, err, 
-                         clientGone, rheld, retNext, ua >>
+                         clientGone, tryOpen, rheld, retNext, ua >>
 
 notifier == NLoop
 
@@ -1071,8 +1162,8 @@ CGone == /\ pc["c"] = "CGone"
          /\ UNCHANGED << urr, cleaned, upReset, reason, direct, respStarted, 
                          upDone, cur, setupRetry, beh, answered, remaining, 
                          rsSet, gt, pt, deadlinePassed, respHdr, replies, 
-                         attempts, gauge, loopI, phase, err, rheld, npend, 
-                         retNext, ua >>
+                         attempts, gauge, loopI, phase, err, tryOpen, rheld, 
+                         npend, retNext, ua >>
 
 client == CGone
 
@@ -1105,6 +1196,10 @@ AttemptsBound  == attempts <= 1 + Budget
 (* C10: the cluster's retries resource taken for an admitted retry is given back by the time the request is over *)
 RetriesReturned == pc["w"] \in {"Exit", "Done"} /\ cleaned = 1 => rheld = 0
 RetriesBounded  == rheld \in {0, 1}
+(* C17: a per-try timeout belongs to ONE attempt: once the worker has handled the end of that attempt (retry admitted,
+   request over) its timer is not armed any more - it cannot expire on the set-up of the next attempt.  (A callback
+   that was already running when the attempt ended is another matter: Stop() cannot cancel it, pt = "run".) *)
+PerTryTimerOnlyWhileTryOpen == pt = "armed" => tryOpen
 NoAttemptAfterReply == [][respStarted => attempts' = attempts]_vars
 (* a request whose upstream never answers is completed by the timeout: the worker is never parked for ever.
    TLC reports the hang as a deadlock (worker in Wait, timers spent, nothing left to wake it). *)
